@@ -105,7 +105,7 @@ Lemma process_entry st v : v < 4294967296 ->
 Proof.
   intros Hv. unfold entry_line.
   destruct (dec_line_facts (B ".entry ") v) as [H59 [Hs _]].
-  { repeat constructor; try (left; reflexivity). }
+  { repeat (constructor; [first [left; reflexivity | right; reflexivity]|]). constructor. }
   rewrite prep_line_id by (try exact H59; right; exact Hs).
   change (B ".entry " ++ print_dec v) with (46 :: 101 :: 110 :: 116 :: 114 :: 121 :: 32 :: print_dec v).
   unfold Asm.process_line. cbv zeta. rewrite skip_ws_cons by reflexivity.
@@ -151,7 +151,7 @@ Proof.
     with ((B ".function " ++ name ++ 32 :: print_dec (fn_arity f) ++ 32 :: print_dec (fn_locals f) ++ [32]) ++ print_dec (fn_upv f)).
   2:{ rewrite <- !app_assoc. cbn [app]. rewrite <- !app_assoc. cbn [app]. rewrite <- !app_assoc. reflexivity. }
   apply dec_line_facts.
-  apply Forall_app. split; [repeat constructor; try (left; reflexivity); right; reflexivity|].
+  apply Forall_app. split; [repeat (constructor; [first [left; reflexivity | right; reflexivity]|]); constructor|].
   apply Forall_app. split; [eapply Forall_impl; [|apply all_ident_plain, Hid]; intros c Hc; left; exact Hc|].
   constructor; [right; reflexivity|].
   apply Forall_app. split; [eapply Forall_impl; [|apply print_dec_plain]; intros c Hc; left; exact Hc|].
